@@ -14,9 +14,10 @@
    (iii) solvers: BaseBackend._solve_euler/_solve_heun (Python loop, `i % store_step == 0` cadence, t = i + t0),
         TorchBackend._solve_euler (same loop), JaxBackend._solve_euler/_solve_heun (lax.scan outer over stored samples,
         inner over store_step updates; the Heun corrector is evaluated at t + 1).
-        The default (in-place) vector field returns its `dy` buffer: in `_solve_heun`
-            rhs = func(step, y, *args); y_0 = y + dt * rhs; y += dt/2 * (rhs + func(step, y_0, *args))
-        `rhs` IS that buffer and is overwritten by the second call before the sum is formed (`alias` below). *)
+        The default (in-place) vector field returns its `dy` buffer.  Since fix_D36 `_solve_heun` copies the first slope
+            rhs = np.array(func(step, y, *args)); y_0 = y + dt * rhs; y += dt/2 * (rhs + func(step, y_0, *args))
+        Before that fix `rhs` WAS the buffer and was overwritten by the second call (`alias = true` below models the
+        old loop; the current code is `alias = false`). *)
 From Coq Require Import List ZArith QArith Qcanon Bool Arith.
 From PV Require Import History.
 Import ListNotations.
@@ -116,7 +117,7 @@ Definition rhs := Z -> row -> row.
 Definition euler_upd (f : rhs) (dt : Qc) (t : Z) (y : row) : row := vadd y (vscale dt (f t y)).
 (* jax:  y + dt * rhs  — the same expression *)
 
-(* base Heun; alias = true when func returns its in-place buffer (default and Fortran backends, inplace vector field) *)
+(* base Heun; alias = false is the code as it is now; alias = true the loop before fix_D36 when func returns its buffer *)
 Definition heun_base_upd (alias : bool) (f : rhs) (dt : Qc) (t : Z) (y : row) : row :=
   let k1 := f t y in
   let y_0 := vadd y (vscale dt k1) in
@@ -145,23 +146,24 @@ Inductive solver := Euler | Heun.
 Inductive backend := BDefault | BTorch | BJax | BFortran.
 Definition idx_base (b : backend) : Z := match b with BFortran => 1%Z | _ => 0%Z end.
 
-(* Impl: what `run` computes on backend b (inplace = the in-place vector-field convention, the default) *)
-Definition run_impl (b : backend) (sv : solver) (inplace : bool) (s : linsys) (dt : Qc) (steps ss : nat) (y0 : row) : list row :=
+(* Impl: what `run` computes on backend b *)
+Definition run_impl (b : backend) (sv : solver) (s : linsys) (dt : Qc) (steps ss : nat) (y0 : row) : list row :=
   let f := lin_rhs (idx_base b) s in
   match b, sv with
   | BJax, Euler => jax_solve (euler_upd f dt) (cdiv steps ss) ss (idx_base b) y0
   | BJax, Heun => jax_solve (heun_jax_upd f dt) (cdiv steps ss) ss (idx_base b) y0
   | _, Euler => base_solve (euler_upd f dt) steps ss (idx_base b) y0
-  | _, Heun => base_solve (heun_base_upd inplace f dt) steps ss (idx_base b) y0
+  | _, Heun => base_solve (heun_base_upd false f dt) steps ss (idx_base b) y0
   end.
+(* the Python loop before fix_D36 (seeded-bug reference) *)
+Definition run_impl_preD36 (s : linsys) (dt : Qc) (steps ss : nat) (y0 : row) : list row :=
+  base_solve (heun_base_upd true (lin_rhs 0 s) dt) steps ss 0%Z y0.
 (* Spec: explicit Euler / Heun on the model, rows every store_step steps, indices 0-based *)
 Definition run_spec (sv : solver) (s : linsys) (dt : Qc) (steps ss : nat) (y0 : row) : list row :=
   let f := lin_rhs 0 s in
   spec_rows (match sv with Euler => euler_upd f dt | Heun => heun_spec_upd f dt end) ss (cdiv steps ss) 0%Z y0.
 
-(* guards of the two Heun findings *)
-Definition heun_alias_free (b : backend) (sv : solver) (inplace : bool) : bool :=
-  match sv, b with Heun, BJax => true | Heun, _ => negb inplace | Euler, _ => true end.
+(* guard of the Heun finding D16: the jax corrector reads the input sample of the NEXT step *)
 Definition heun_time_free (b : backend) (sv : solver) (s : linsys) : bool :=
   match sv, b with Heun, BJax => time_free s | _, _ => true end.
 
